@@ -177,7 +177,7 @@ def _run_case(case):
                             # variance twice that, relatively (two rows that happen to differ by 1e-6 at offset 300: amp = 3e8)
                             amp = float(xd.abs().max()) * float(torch.exp(subj.state_dict()["log_scale"].double()).max())
                             noise = 16 * (2.0 ** -52 if TOL < 1e-6 else 2.0 ** -23) * amp
-                            tv = t0 + (4 * noise if TOL < 1e-6 else 0.0)
+                            tv = t0 + 4 * noise     # (single precision too: two float32 rows 4.7e-6 apart at 3.19 give amp = 1e6)
                             ok_var = bool(((var_b - 1).abs() < tv).all()) or bool(((var_b * n_per / (n_per - 1) - 1).abs() < tv).all())
                             if float(mean.abs().max()) > t0 + noise or not ok_var:
                                 res.fail("actnorm_init", site, "first training forward: outputs have mean %s, biased variance %s (history %s)" % (
@@ -190,12 +190,15 @@ def _run_case(case):
                             model.update(initialized=True, log_scale=sd["log_scale"].double().clone(), shift=sd["shift"].double().clone())
                         ref = torch.exp(model["log_scale"]).reshape(bshape) * xd + model["shift"].reshape(bshape)
                         lref = hw * float(model["log_scale"].sum())
+                        # scale*x and shift cancel: the sum carries the rounding of its larger term (two rows 4.7e-6 apart: |scale*x| = 1e6)
+                        cancel = 16 * (2.0 ** -52 if TOL < 1e-6 else 2.0 ** -23) * float((torch.exp(model["log_scale"]).reshape(bshape) * xd).abs().max())
                     else:
                         y, ld = subj.inverse(x)
                         y, ld = y.double(), ld.double()
                         ref = (xd - model["shift"].reshape(bshape)) / torch.exp(model["log_scale"]).reshape(bshape)
                         lref = -hw * float(model["log_scale"].sum())
-                    if float((y - ref).abs().max()) > TOL * (1 + float(ref.abs().max())) or float((ld - lref).abs().max()) > TOL * (1 + abs(lref)):
+                        cancel = 0.0
+                    if float((y - ref).abs().max()) > TOL * (1 + float(ref.abs().max())) + cancel or float((ld - lref).abs().max()) > TOL * (1 + abs(lref)):
                         res.fail("actnorm_output", site, "step %d %s: outputs/log-det differ from the reference model (max %.3g / %.3g); history %s" % (
                             step, hist[-1], float((y - ref).abs().max()), float((ld - lref).abs().max()), hist))
                         return res
